@@ -87,7 +87,13 @@ func randFrac(r *rand.Rand, max *big.Int) *big.Int {
 	return v
 }
 
-func toInt(b *big.Int) sdkmath.Int { return sdkmath.NewIntFromBigInt(b) }
+// toInt converts; values beyond what sdkmath.Int can carry are clamped to 2^255-1 (still a valid message amount).
+func toInt(b *big.Int) sdkmath.Int {
+	if b.BitLen() > 255 {
+		return sdkmath.NewIntFromBigInt(new(big.Int).Sub(pow2(255), bigOne))
+	}
+	return sdkmath.NewIntFromBigInt(b)
+}
 
 func coin(denom string, b *big.Int) sdk.Coin { return sdk.NewCoin(denom, toInt(b)) }
 
